@@ -229,7 +229,7 @@ def generate(tier, seed, wd, log):
             continue
         seen.add(k)
         out.append(s)
-    cap = {"quick": 12000, "thorough": 200000}[tier]
+    cap = {"quick": 9000, "thorough": 200000}[tier]
     if len(out) > cap:
         import random
         rng = random.Random(seed)
